@@ -8,6 +8,7 @@ export PYTHONPATH="${UFO2FT_REPO:-/repo}/Lib:/verif"
 /venv/bin/python harness/info_from_source.py >/dev/null
 /venv/bin/python harness/imp_from_source.py >/dev/null
 /venv/bin/python harness/fea_from_source.py >/dev/null
+/venv/bin/python harness/name_from_source.py >/dev/null
 cd coq
 coq_makefile -f _CoqProject -o Makefile >/dev/null
 timeout 3000 make -j16 2>&1 | tail -5
